@@ -257,6 +257,7 @@ type genOpts struct {
 	Absences    bool
 	Evidence    bool
 	Malformed   bool
+	OddChecks   bool
 	Monitors    bool
 	KeepExports bool
 	TimeWalk    bool
@@ -276,6 +277,7 @@ func genHistory(seed uint64, spec *GenesisSpec, g *genOpts) (*History, *HistResu
 	w := newWorld(n, r)
 	w.Weights = g.Weights
 	w.GasFromHeld = g.FeeRoute
+	w.OddChecks = g.OddChecks
 	h := &History{Spec: spec}
 	res := &HistResult{}
 	var prev *Holdings
